@@ -132,51 +132,28 @@ theorem inv_reachable (c : Cfg) (ops : List (Op τ)) {t' : Table τ}
 
 /-! ## `SetFuncName`: case analysis, unreachable rename, soundness of the returned name -/
 
-/-- the five outcomes of `SetFuncName`, in the order of the Go code -/
+/-- the outcomes of `SetFuncName`, in the order of the Go code (since 78f76aa with the -autoname record:
+a call whose type list is bound to the renaming of this very call name is that call again) -/
 theorem setFuncName_cases (c : Cfg) (t : Table τ) (fn : Name) (typs : List τ) :
     (∃ f, nameOf R t typs = some f ∧
       ((f = fn ∧ setFuncName R c t fn typs = .ok (fn, t)) ∨
        (f ≠ fn ∧ c.dedup = true ∧ setFuncName R c t fn typs = .ok (f, t)) ∨
-       (f ≠ fn ∧ c.dedup = false ∧ setFuncName R c t fn typs = .error (.duplicate f fn)))) ∨
+       (f ≠ fn ∧ c.dedup = false ∧ c.autoname = true ∧ t.autonamedFrom f = fn ∧ setFuncName R c t fn typs = .ok (f, t)) ∨
+       (f ≠ fn ∧ c.dedup = false ∧ ¬ (c.autoname = true ∧ t.autonamedFrom f = fn) ∧
+          setFuncName R c t fn typs = .error (.duplicate f fn)))) ∨
     (nameOf R t typs = none ∧ ∃ ts, t.lookup fn = some ts ∧
       ((eqL R ts typs = true ∧ setFuncName R c t fn typs = .ok (fn, t)) ∨
-       (eqL R ts typs = false ∧ c.autoname = true ∧ setFuncName R c t fn typs = .ok (getFuncName R c t typs)) ∨
+       (eqL R ts typs = false ∧ c.autoname = true ∧
+          setFuncName R c t fn typs = .ok (recordAutoname (getFuncName R c t typs) fn)) ∨
        (eqL R ts typs = false ∧ c.autoname = false ∧ setFuncName R c t fn typs = .error (.conflict fn)))) ∨
-    (nameOf R t typs = none ∧ t.lookup fn = none ∧ setFuncName R c t fn typs = .ok (fn, t.insert fn typs)) := by
-  unfold setFuncName
-  cases hn : nameOf R t typs with
-  | some f =>
-    refine Or.inl ⟨f, rfl, ?_⟩
-    by_cases hf : f = fn
-    · exact Or.inl ⟨hf, by simp [hf]⟩
-    · cases hd : c.dedup with
-      | true => exact Or.inr (Or.inl ⟨hf, rfl, by simp [hf]⟩)
-      | false => exact Or.inr (Or.inr ⟨hf, rfl, by simp [hf]⟩)
-  | none =>
-    cases hl : t.lookup fn with
-    | some ts =>
-      refine Or.inr (Or.inl ⟨rfl, ts, rfl, ?_⟩)
-      cases he : eqL R ts typs with
-      | true => exact Or.inl ⟨rfl, by simp [he]⟩
-      | false =>
-        cases ha : c.autoname with
-        | true => exact Or.inr (Or.inl ⟨rfl, rfl, by simp [he]⟩)
-        | false => exact Or.inr (Or.inr ⟨rfl, rfl, by simp [he]⟩)
-    | none => exact Or.inr (Or.inr ⟨rfl, rfl, rfl⟩)
+    (nameOf R t typs = none ∧ t.lookup fn = none ∧ setFuncName R c t fn typs = .ok (fn, t.insert fn typs)) :=
+  setFuncName_cases' R c t fn typs
 
 /-- `rename_unreachable`: without -autoname and -dedup a successful `SetFuncName` returns the name it
 was given, so `panic("unreachable: function names cannot be changed …")` in newPackage cannot fire -/
 theorem rename_unreachable (c : Cfg) (t : Table τ) (fn : Name) (typs : List τ) {n : Name} {t' : Table τ}
     (ha : c.autoname = false) (hd : c.dedup = false) (hs : setFuncName R c t fn typs = .ok (n, t')) :
-    n = fn := by
-  rcases setFuncName_cases R c t fn typs with ⟨f, _, h | h | h⟩ | ⟨_, ts, _, h | h | h⟩ | ⟨_, _, h⟩
-  · rw [h.2] at hs; cases hs; rfl
-  · rw [hd] at h; exact absurd h.2.1 (by simp)
-  · rw [h.2.2] at hs; cases hs
-  · rw [h.2] at hs; cases hs; rfl
-  · rw [ha] at h; exact absurd h.2.1 (by simp)
-  · rw [h.2.2] at hs; cases hs
-  · rw [h] at hs; cases hs; rfl
+    n = fn := rename_unreachable' R c t fn typs ha hd hs
 
 example : setFuncName GTy.rel { pfx := asc "deriveEqual" } {} (asc "deriveEqualX") [GTy.basic (asc "int")]
     = .ok (asc "deriveEqualX", { entries := [(asc "deriveEqualX", [GTy.basic (asc "int")])] }) := by decide
@@ -212,44 +189,8 @@ theorem setFuncName_sound (c : Cfg) (t : Table τ) (fn : Name) (typs : List τ) 
     (∃ ts, (n, ts) ∈ t'.entries ∧ (typs = ts ∨ eqL R typs ts = true ∨ eqL R ts typs = true)) ∧
     (∀ e ∈ t.entries, e ∈ t'.entries) ∧
     (∀ e ∈ t'.entries, e ∈ t.entries ∨ e.2 = typs) ∧
-    (n = fn ∨ n ∈ t.names ∨ (n ∉ t.names ∧ n ∉ c.reserved)) := by
-  rcases setFuncName_cases R c t fn typs with ⟨f, hn, h | h | h⟩ | ⟨hn, ts, hl, h | h | h⟩ | ⟨hn, hl, h⟩
-  · rw [h.2] at hs; cases hs
-    obtain ⟨ts, hm, hr⟩ := nameOf_some R hn
-    rw [h.1] at hm
-    exact ⟨⟨ts, hm, hr.elim Or.inl (fun x => Or.inr (Or.inl x))⟩, fun e he => he, fun e he => Or.inl he, Or.inl rfl⟩
-  · rw [h.2.2] at hs; cases hs
-    obtain ⟨ts, hm, hr⟩ := nameOf_some R hn
-    exact ⟨⟨ts, hm, hr.elim Or.inl (fun x => Or.inr (Or.inl x))⟩, fun e he => he, fun e he => Or.inl he,
-      Or.inr (Or.inl (List.mem_map.mpr ⟨(n, ts), hm, rfl⟩))⟩
-  · rw [h.2.2] at hs; cases hs
-  · rw [h.2] at hs; cases hs
-    exact ⟨⟨ts, lookup_some_mem hl, Or.inr (Or.inr h.1)⟩, fun e he => he, fun e he => Or.inl he, Or.inl rfl⟩
-  · rw [h.2.2] at hs
-    have e := Except.ok.inj hs
-    have e1 : n = (getFuncName R c t typs).1 := by rw [e]
-    have e2 : t' = (getFuncName R c t typs).2 := by rw [e]
-    subst e1; subst e2
-    obtain ⟨hmono, ts, hm, hr⟩ := getFuncName_entries R c t typs
-    refine ⟨⟨ts, hm, hr.elim Or.inl (fun x => Or.inr (Or.inl x))⟩, hmono, ?_, ?_⟩
-    · intro e he
-      unfold getFuncName at he
-      rw [hn] at he
-      simp only [Table.insert, List.mem_append, List.mem_singleton] at he
-      rcases he with he | he
-      · exact Or.inl he
-      · exact Or.inr (by rw [he])
-    · unfold getFuncName
-      rw [hn]
-      exact Or.inr (Or.inr ⟨(newName_fresh R c t typs).1, (newName_fresh R c t typs).2.1⟩)
-  · rw [h.2.2] at hs; cases hs
-  · rw [h] at hs; cases hs
-    refine ⟨⟨typs, by simp [Table.insert], Or.inl rfl⟩, fun e he => by simp [Table.insert, he], ?_, Or.inl rfl⟩
-    intro e he
-    simp only [Table.insert, List.mem_append, List.mem_singleton] at he
-    rcases he with he | he
-    · exact Or.inl he
-    · exact Or.inr (by rw [he])
+    (n = fn ∨ n ∈ t.names ∨ (n ∉ t.names ∧ n ∉ c.reserved)) :=
+  setFuncName_sound' R c t fn typs hs
 
 /-! ## `registerAll` (the loop of newPackage over all files, calls and plugins)
 
@@ -286,18 +227,42 @@ theorem fail_iff_clash (f : Flags) (ps : List (Plugin τ)) (files : List (List (
       · exact this.1 h
       · exact this.2 h
     exact regFiles_err_of_clash R f files Tables.empty [] (reg_empty R ps) hacc (by simpa using hEq)
-      (by simp) hn (Or.inr hd) (Or.inr ha)
+      (by simp) hn (Or.inr hd) (Or.inr ha) (Or.inl ha)
 
 /-- `autoname_only`: -autoname does not help against duplicates: a package without conflicts that has a
-duplicate is rejected whenever -dedup is off (whatever -autoname says) -/
+duplicate is rejected whenever -dedup is off (whatever -autoname says). `hne`: call names are identifiers,
+hence non-empty (Go's `autonamed[f] == funcName` is true for a missing key and an empty name). -/
 theorem autoname_only (f : Flags) (ps : List (Plugin τ)) (files : List (List (Call τ)))
     (hd : f.dedup = false) (hacc : Accepted ps files.flatten)
     (hEq : EqIsIdentityOn R (files.flatten.map (·.args)))
+    (hne : ∀ c ∈ files.flatten, c.name ≠ [])
     (hnc : ¬ Conflict ps files.flatten) (hdup : Duplicate ps files.flatten) :
     ∃ e, registerAll R f ps files = .error e := by
   have hn : ¬ ([] ++ files.flatten).Pairwise (NoClashPair ps) := fun hpw => ((noClash_iff ps _).mp hpw).2 hdup
   exact regFiles_err_of_clash R f files Tables.empty [] (reg_empty R ps) hacc (by simpa using hEq)
-    (by simp) hn (Or.inr hd) (Or.inl (fun a b hs hp => hnc ⟨a, b, by simpa using hs, hp⟩))
+    (by simp) hn (Or.inr hd) (Or.inl (fun a b hs hp => hnc ⟨a, b, by simpa using hs, hp⟩)) (Or.inr hne)
+
+/-- `autoname_fails_only_on_duplicates` (the repair 78f76aa, F59): under -autoname a registration never
+fails because of a conflict NOR because a renamed call occurs again — whenever it fails (with or without
+-dedup) the package has a duplicate: two different names for one plugin and one argument type list. No side
+condition on repeated (name, types) calls. Together with `autoname_only`: on packages without a
+conflict, -autoname alone fails IFF there is a duplicate. -/
+theorem autoname_fails_only_on_duplicates (f : Flags) (ps : List (Plugin τ)) (files : List (List (Call τ)))
+    (ha : f.autoname = true) (hacc : Accepted ps files.flatten)
+    (hEq : EqIsIdentityOn R (files.flatten.map (·.args)))
+    {e : RegErr} (h : registerAll R f ps files = .error e) : Duplicate ps files.flatten := by
+  have := regFiles_autoname_error R f ha files Tables.empty [] e (regW_empty R f ps) hacc (by simpa using hEq) h
+  simpa using this
+
+/-- conflict-only packages are accepted by -autoname alone -/
+theorem autoname_accepts_conflicts (f : Flags) (ps : List (Plugin τ)) (files : List (List (Call τ)))
+    (ha : f.autoname = true) (hacc : Accepted ps files.flatten)
+    (hEq : EqIsIdentityOn R (files.flatten.map (·.args))) (hnd : ¬ Duplicate ps files.flatten) :
+    ∃ r, registerAll R f ps files = .ok r := by
+  cases h : registerAll R f ps files with
+  | ok r => exact ⟨r, rfl⟩
+  | error e => exact absurd (autoname_fails_only_on_duplicates R f ps files ha hacc hEq h) hnd
+  | panic => exact absurd h (regFiles_ne_panic R f ps files Tables.empty)
 
 /-- `dedup_only`: -dedup does not help against conflicts -/
 theorem dedup_only (f : Flags) (ps : List (Plugin τ)) (files : List (List (Call τ)))
@@ -307,7 +272,7 @@ theorem dedup_only (f : Flags) (ps : List (Plugin τ)) (files : List (List (Call
     ∃ e, registerAll R f ps files = .error e := by
   have hn : ¬ ([] ++ files.flatten).Pairwise (NoClashPair ps) := fun hpw => ((noClash_iff ps _).mp hpw).1 hc
   exact regFiles_err_of_clash R f files Tables.empty [] (reg_empty R ps) hacc (by simpa using hEq)
-    (by simp) hn (Or.inl (fun a b hs hp => hnd ⟨a, b, by simpa using hs, hp⟩)) (Or.inr ha)
+    (by simp) hn (Or.inl (fun a b hs hp => hnd ⟨a, b, by simpa using hs, hp⟩)) (Or.inr ha) (Or.inl ha)
 
 /-- `both_accept`: with both flags every package (whose calls pass the plugins' own argument checks)
 is accepted — for any assignability relation -/
@@ -339,7 +304,8 @@ theorem no_clash_accept (f : Flags) (ps : List (Plugin τ)) (files : List (List 
     argument type list (`noIdent`), which is what -dedup promises;
 (3) every registered name is a name some call of the package uses, or is not reserved: names the user
     calls elsewhere are never taken;
-(4) every binding's type list is the argument list of some call handled by that plugin. -/
+(4) every binding's type list is the argument list of some call handled by that plugin, written with the
+    bound name or renamed to it by -autoname (recorded in `autonamed`). -/
 theorem resolve_sound (f : Flags) (ps : List (Plugin τ)) (files : List (List (Call τ)))
     (hEq : EqIsIdentityOn R (files.flatten.map (·.args)))
     {out : List (List (Option Name) × Bool)} {T' : Tables τ} (h : registerAll R f ps files = .ok (out, T')) :
@@ -348,14 +314,15 @@ theorem resolve_sound (f : Flags) (ps : List (Plugin τ)) (files : List (List (C
         ∃ i, handlerOf ps c = some i ∧ (n, c.args) ∈ (T' i).entries) ∧
     (∀ i, Inv R (T' i)) ∧
     (∀ i, ∀ n ∈ (T' i).names, (∃ c ∈ files.flatten, c.name = n) ∨ n ∉ f.reserved) ∧
-    (∀ i, ∀ e ∈ (T' i).entries, ∃ c ∈ files.flatten, handlerOf ps c = some i ∧ c.args = e.2) := by
+    (∀ i, ∀ e ∈ (T' i).entries, ∃ c ∈ files.flatten, handlerOf ps c = some i ∧ c.args = e.2 ∧
+      (c.name = e.1 ∨ (T' i).autonamed.lookup e.1 = some c.name)) := by
   obtain ⟨hW, _, hb⟩ := regFiles_sound R f files Tables.empty [] out T' (regW_empty R f ps) h
   simp only [List.nil_append] at hW
   refine ⟨?_, hW.inv, hW.namesOk, hW.srcs⟩
   intro j file x hj hx k c n hk hn
   obtain ⟨i, ts, hh, hm, hrel⟩ := hb j file x hj hx k c n hk hn
   refine ⟨i, hh, ?_⟩
-  obtain ⟨c', hc', _, hargs⟩ := hW.srcs i _ hm
+  obtain ⟨c', hc', _, hargs, _⟩ := hW.srcs i _ hm
   have hcmem : c ∈ files.flatten :=
     List.mem_flatten.mpr ⟨file, List.mem_of_getElem? hj, List.mem_of_getElem? hk⟩
   have m1 : c.args ∈ files.flatten.map (·.args) := List.mem_map.mpr ⟨c, hcmem, rfl⟩
@@ -424,7 +391,7 @@ example : (registerAll GTy.rel {} exPs [[⟨asc "deriveEqual", [tInt, tInt]⟩, 
 
 -- autoname_only / dedup_only / both_accept
 example : ∃ e, registerAll GTy.rel { autoname := true } exPs exDuplicate = .error e :=
-  autoname_only GTy.rel { autoname := true } exPs exDuplicate rfl (exAcc _) (by decide) exDuplicate_noConflict exDuplicate_duplicate
+  autoname_only GTy.rel { autoname := true } exPs exDuplicate rfl (exAcc _) (by decide) (by decide) exDuplicate_noConflict exDuplicate_duplicate
 example : ∃ e, registerAll GTy.rel { dedup := true } exPs exConflict = .error e :=
   dedup_only GTy.rel { dedup := true } exPs exConflict rfl (exAcc _) (by decide) exConflict_noDuplicate exConflict_conflict
 example : ∃ r, registerAll GTy.rel { autoname := true, dedup := true } exPs (exConflict ++ exDuplicate) = .ok r :=
@@ -437,12 +404,30 @@ example : (registerAll GTy.rel { autoname := true, reserved := [asc "deriveEqual
 example : (registerAll GTy.rel { dedup := true } exPs exDuplicate).names
     = [[some (asc "deriveEqual"), some (asc "deriveEqual")]] := by decide
 
-/-- Observation (not claimed by the property): -autoname alone can reject a package whose only clash is
-a conflict, when the conflicting call occurs twice: the second occurrence finds the minted name and,
-without -dedup, is reported as a duplicate. -/
-theorem autoname_alone_rejects_repeated_conflict :
+/-- F59 repaired: -autoname alone accepts a package whose only clash is a conflict even when the
+conflicting call occurs twice: the second occurrence is recognised as the renamed call (before 78f76aa
+it was reported as a duplicate). -/
+theorem autoname_alone_accepts_repeated_conflict :
     (registerAll GTy.rel { autoname := true } exPs
-      [[⟨asc "deriveEqual", [tInt, tInt]⟩, ⟨asc "deriveEqual", [tStr, tStr]⟩, ⟨asc "deriveEqual", [tStr, tStr]⟩]]).isError = true := by
+      [[⟨asc "deriveEqual", [tInt, tInt]⟩, ⟨asc "deriveEqual", [tStr, tStr]⟩, ⟨asc "deriveEqual", [tStr, tStr]⟩]]).names
+    = [[some (asc "deriveEqual"), some (asc "deriveEqual_"), some (asc "deriveEqual_")]] := by
+  decide
+
+example : ∃ r, registerAll GTy.rel { autoname := true } exPs exConflict = .ok r :=
+  autoname_accepts_conflicts GTy.rel { autoname := true } exPs exConflict rfl (exAcc _) (by decide) exConflict_noDuplicate
+
+/-- a genuine duplicate still fails under -autoname alone, also when one of the two names is renamed:
+`n(A), m(B), n(B)` -/
+theorem autoname_alone_rejects_duplicate_after_conflict :
+    (registerAll GTy.rel { autoname := true } exPs
+      [[⟨asc "deriveEqual", [tInt, tInt]⟩, ⟨asc "deriveEqualX", [tStr, tStr]⟩, ⟨asc "deriveEqual", [tStr, tStr]⟩]]).isError = true := by
+  decide
+
+/-- Observation: the converse of `autoname_fails_only_on_duplicates` needs "no conflict": a duplicate whose
+second name is exactly the name -autoname minted for the first is absorbed (`n(A), n(B), n_(B)`). -/
+theorem autoname_absorbs_duplicate_with_minted_name :
+    (registerAll GTy.rel { autoname := true } exPs
+      [[⟨asc "deriveEqual", [tInt, tInt]⟩, ⟨asc "deriveEqual", [tStr, tStr]⟩, ⟨asc "deriveEqual_", [tStr, tStr]⟩]]).isOk = true := by
   decide
 
 end Examples
